@@ -53,6 +53,9 @@ pub enum MOp {
 	AddLfo { wave: WaveS, freq: f64, amp: f64, offset: f64, phase: f64 },
 	AddTweener { initial: f64 },
 	AddProbeMod,
+	/// a modulator whose value is the mapping of an older modulator's value (an LFO with
+	/// amplitude 0 whose offset is linked to modulator `src`)
+	AddFollower { src: usize, map: MapS },
 	/// a sub-track whose probe effect has one parameter per link
 	AddReader { links: Vec<(usize, MapS)> },
 	TweenerSet { m: usize, target: f64, delay: f64, dur: f64, easing: EasingSpec },
@@ -96,7 +99,7 @@ fn gen_case(seed: u64, tier: Tier) -> Case {
 	let mut ops = vec![];
 	let mut nm = 0usize;
 	while ops.len() < n {
-		let op = match rng.weighted(&[8, 6, 2, 10, 8, 3, 3, 3, 2, 2, 3, 22]) {
+		let op = match rng.weighted(&[8, 6, 2, 10, 8, 3, 3, 3, 2, 2, 3, 22, 4]) {
 			0 if nm < 6 => {
 				nm += 1;
 				let (r1, r2, r3, r4) = (rng.frange(0.0, 3.0 / unit), rng.frange(-3.0, 3.0), rng.frange(-2.0, 2.0), rng.frange(0.0, TAU));
@@ -115,7 +118,8 @@ fn gen_case(seed: u64, tier: Tier) -> Case {
 			}
 			1 if nm < 6 => {
 				nm += 1;
-				MOp::AddTweener { initial: rng.frange(-1.0, 2.0) }
+				let r = rng.frange(-1.0, 2.0);
+				MOp::AddTweener { initial: *rng.pick(&[0.0, 1.0, 0.5, r, r]) }
 			}
 			2 if nm < 6 => {
 				nm += 1;
@@ -124,9 +128,21 @@ fn gen_case(seed: u64, tier: Tier) -> Case {
 			3 if nm > 0 => MOp::AddReader {
 				links: (0..rng.urange(1, 3)).map(|_| (rng.usize_below(nm), gen_map(&mut rng))).collect(),
 			},
+			12 if nm > 0 && nm < 6 => {
+				nm += 1;
+				MOp::AddFollower {
+					src: rng.usize_below(nm - 1),
+					map: gen_map(&mut rng),
+				}
+			}
+			// (targets from a small pool: setting a tweener to the value it has, or to the target
+			// it is already heading for, must still replace the tween)
 			4 if nm > 0 => MOp::TweenerSet {
 				m: rng.usize_below(nm),
-				target: rng.frange(-2.0, 3.0),
+				target: {
+					let r = rng.frange(-2.0, 3.0);
+					*rng.pick(&[0.0, 1.0, 0.5, r, r])
+				},
 				delay: if rng.chance(0.7) { 0.0 } else { rng.frange(0.0, 4.0 * unit) },
 				dur: *rng.pick(&[0.0, 0.4 * unit, 3.0 * unit, 10.0 * unit]),
 				easing: EasingSpec::gen(&mut rng),
@@ -292,6 +308,7 @@ enum RefMod {
 	Lfo { wave: WaveS, freq: f64, amp: f64, offset: f64, phase: f64, value: f64, pending: Vec<MOp> },
 	Tweener { value: f64, tween: Option<(f64, f64, f64, EasingSpec, f64, Duration)>, pending: Option<(f64, f64, f64, EasingSpec)> },
 	Counting { updates: u64 },
+	Follower { src: usize, map: MapS, value: Option<f64> },
 }
 
 struct MM {
@@ -399,6 +416,36 @@ pub fn run_case(case: &Case) -> CaseResult {
 						cnt: Some(h),
 						id,
 					});
+				}
+			}
+			MOp::AddFollower { src, map: ms } => {
+				if mods.is_empty() {
+					continue;
+				}
+				let src = *src % mods.len();
+				if mods[src].drop_gap.is_some() {
+					continue;
+				}
+				let b = LfoBuilder::new().frequency(0.0).amplitude(0.0).offset(Value::FromModulator {
+					id: mods[src].id,
+					mapping: Mapping {
+						input_range: ms.input,
+						output_range: ms.output,
+						easing: ms.easing.k(),
+					},
+				});
+				if let Ok(h) = manager.add_modulator(b) {
+					let id = h.id();
+					mods.push(MM {
+						model: RefMod::Follower { src, map: *ms, value: Some(0.0) }, // (0 = the default of an LFO offset whose source is missing)
+						first_cb: cb,
+						drop_gap: None,
+						lfo: Some(h),
+						tw: None,
+						cnt: None,
+						id,
+					});
+					res.hit("followers_added");
 				}
 			}
 			MOp::AddReader { links } => {
@@ -515,18 +562,30 @@ pub fn run_case(case: &Case) -> CaseResult {
 								*tween = Some((*value, target, dur, easing, 0.0, Duration::from_secs_f64(delay)));
 							}
 						}
-						RefMod::Counting { .. } => {}
+						RefMod::Counting { .. } | RefMod::Follower { .. } => {}
 					}
 				}
 				// reference values after each chunk, per modulator
 				let mut values: Vec<Vec<Option<f64>>> = vec![vec![None; lens.len()]; mods.len()];
 				for (k, n) in lens.iter().enumerate() {
 					let cdt = dt * *n as f64;
-					for (mi, mm) in mods.iter_mut().enumerate() {
-						if !mm.present(cb) {
+					for mi in 0..mods.len() {
+						if !mods[mi].present(cb) {
 							continue;
 						}
+						// (a follower reads its - older, hence already updated - source in the same chunk)
+						let src_value = match &mods[mi].model {
+							RefMod::Follower { src, .. } => values[*src][k],
+							_ => None,
+						};
+						let mm = &mut mods[mi];
 						match &mut mm.model {
+							RefMod::Follower { map: ms, value, .. } => {
+								if let Some(v) = src_value {
+									*value = Some(map(ms, v));
+								}
+								values[mi][k] = *value;
+							}
 							RefMod::Lfo { wave: w, freq, amp, offset, phase, value, .. } => {
 								*phase += cdt * *freq;
 								*phase %= 1.0;
@@ -599,7 +658,15 @@ pub fn run_case(case: &Case) -> CaseResult {
 							trace.f64(got_param);
 							match want {
 								Some(v) => {
-									let tol = 1e-9 * (1.0 + v.abs());
+									let mut tol = 1e-9 * (1.0 + v.abs());
+									if let RefMod::Follower { map: fm, .. } = &mods[*mi].model {
+										// (its value is itself the result of a mapping: same allowance as for parameters)
+										tol += 1e-8 * (fm.output.1 - fm.output.0).abs()
+											+ match fm.easing {
+												EasingSpec::InPowf(p) | EasingSpec::OutPowf(p) | EasingSpec::InOutPowf(p) if p < 1.0 => 1e-4 * (fm.output.1 - fm.output.0).abs(),
+												_ => 0.0,
+											};
+									}
 									match seen {
 										Some(s) if (s - v).abs() <= tol => {}
 										_ => {
@@ -607,6 +674,7 @@ pub fn run_case(case: &Case) -> CaseResult {
 												RefMod::Lfo { .. } => "lfo-value-wrong",
 												RefMod::Tweener { .. } => "tweener-value-wrong",
 												RefMod::Counting { .. } => "modulator-not-updated-before-reader",
+												RefMod::Follower { .. } => "chained-modulator-lags-its-source",
 											};
 											res.fail(Violation::new(
 												"closed-form",
